@@ -51,6 +51,8 @@ def c15_group(seed, idx, algo):
     f0 = {"t0": 1, "query_rounds": [], "mid_queries": []}
     if algo in ("POO", "GPO"):
         f0["base"] = ["T_HOO", "HCT", "VHCT"][idx % 3]      # every base learner under every wrapper
+        if algo == "POO":
+            f0["T"] = [150, 100][idx % 2]                     # long enough for a queried learner to be served again several times
     base = gen_algo_case(seed, idx, algo, force=f0)
     out = [base]
     if base.trace is None or base.trace["stopped"]:
@@ -88,17 +90,22 @@ def affine_box(box, a, b):
     return [[a[j] * lo + b[j], a[j] * hi + b[j]] for j, (lo, hi) in enumerate(box)]
 
 
-def c16_group(seed, idx, algo):
+def c16_group(seed, idx, algo, directed=None):
     rnd = random.Random(f"c16-{seed}-{idx}-{algo}")
-    exact = rnd.random() < 0.7
+    exact = rnd.random() < 0.7 or directed is not None
     force0 = {"t0": 1, "query_rounds": [], "mid_queries": [], "rmode": rnd.choice(["dyadic", "negative", "few", "const", "alt", "zero", "objective", "objective"])}
     if exact:
         force0["bmode"] = rnd.choice(["unit", "shift", "pow2", "neg"])
         force0["qmode"] = rnd.choice(["dyadic", "half", "end"])
+    if idx % 8 in (2, 4):
+        force0["bmode"] = rnd.choice(["unit", "shift", "zeroedge"])      # the random partitions on integer-spelled boxes
+    force0["spell_ints"] = (idx % 2 == 0)       # integral bounds written as Python ints in the base run and in its images
     if algo not in ("VROOM", "StroquOOL"):
         # every partition class, and odd as well as even arities, under every algorithm
         force0["kind"] = ["binary", "kary", "randBinary", "dimBinary", "randKary", "kary", "kary", "binary"][idx % 8]
         force0["K"] = [3, 5, 7, 2, 4, 3, 11, 3][idx % 8]
+    if directed is not None:
+        force0.update(directed)
     base = gen_algo_case(seed, idx, algo, force=force0)
     out = [base]
     if base.trace is None or base.trace["stopped"]:
@@ -130,7 +137,7 @@ def c16_group(seed, idx, algo):
         nb = affine_box(base.meta["box"], a, b)
         if base.meta["rmode"] == "objective" and not is_exact:
             continue      # rewards computed from the points: only maps that are exact in floating point keep them identical
-        v = gen_algo_case(seed, idx, algo, force=base_force(base.meta, box=nb, t0=1, query_rounds=[], mid_queries=[],
+        v = gen_algo_case(seed, idx, algo, force=base_force(base.meta, box=nb, t0=1, query_rounds=[], mid_queries=[], spell_ints=(idx % 2 == 0),
                                                              reward_box=base.meta["box"], pullback=(a, b)))
         v.name += "-" + nm
         v.meta["variant"] = nm
